@@ -1,0 +1,36 @@
+#pragma once
+
+/**
+ * Instrumentation hooks for external verification harnesses.
+ *
+ * Everything here is compiled only if CRAB_VERIF is defined. By
+ * default no callback is installed and the hooks do nothing.
+ **/
+#ifdef CRAB_VERIF
+#include <string>
+
+namespace crab {
+namespace verif_hooks {
+
+// kind: "iter", "join", "widen", "widen_thresholds", "stable",
+//       "dec_iter", "meet", "narrow", "dec_stable", "dec_limit"
+// node: the head of the wto cycle being iterated
+// iteration: the iteration number of the (increasing or decreasing)
+//            sequence at that head
+using fixpo_event_fn = void (*)(const char *kind, const std::string &node,
+                                unsigned iteration);
+
+inline fixpo_event_fn &fixpo_event_callback() {
+  static fixpo_event_fn callback = nullptr;
+  return callback;
+}
+
+inline void fixpo_event(const char *kind, const std::string &node,
+                        unsigned iteration) {
+  if (fixpo_event_callback()) {
+    fixpo_event_callback()(kind, node, iteration);
+  }
+}
+} // namespace verif_hooks
+} // namespace crab
+#endif
